@@ -34,6 +34,7 @@ def run(ctx, chk):
     r3(ctx, chk)
     from .c08 import r5 as recovery_rule
     recovery_rule(ctx, chk, "C10.R4")
+    stated_parts_rule(ctx, chk, "C10.R5")
 
 
 def r1(ctx, chk):
@@ -79,14 +80,34 @@ def r1(ctx, chk):
                     chk.ob(rule, "%s calls the filter as a statement" % c.qual, isinstance(par, ast.Expr),
                            "the filter's value is used", key={"function": ck, "construct": "filter call is a statement"},
                            file=c.file, function=c.qual, line=s.node.lineno)
-    # the filter raises for STRICT_PARSING and any missing part; for REQUIRE_PARTS only for required missing parts
+    # the filter raises for STRICT_PARSING and any missing part; for REQUIRE_PARTS exactly for the required parts that are missing
     f = ix.func(FILTER)
-    t = " ".join(ast.unparse(f.node).split())
     p = f.params()
-    ok = ("if %s.STRICT_PARSING and %s:" % (p[1], p[0])) in t and ("elif %s.REQUIRE_PARTS and %s:" % (p[1], p[0])) in t \
-        and __import__("re").search(r"for (\w+) in %s\.REQUIRE_PARTS if \1 in %s" % (p[1], p[0]), t) is not None
-    chk.ob(rule, "_check_strict_parsing: STRICT => any missing part fails; REQUIRE_PARTS => exactly the required missing parts fail", ok, "",
-           key={"function": FILTER, "construct": "filter semantics"}, file=f.file, function=f.qual, line=f.node.lineno)
+    miss, st = p[0], p[1]
+    raises = [n for n in iter_own_nodes(f.node) if isinstance(n, ast.Raise)]
+    strict_ok = require_ok = False
+    detail = []
+    for r in raises:
+        pos, neg = set(), set()
+        for t, pol in enclosing_tests(f.node, r):
+            for a, q in conjuncts(t, pol):
+                (pos if q else neg).add(" ".join(ast.unparse(a).split()))
+        detail.append("raise under %s, not %s" % (sorted(pos), sorted(neg)))
+        if pos == {st + ".STRICT_PARSING", miss}:
+            strict_ok = True
+        elif st + ".REQUIRE_PARTS" in pos and miss in pos and len(pos) == 3 and not any("REQUIRE" in x for x in neg):
+            ev = (pos - {st + ".REQUIRE_PARTS", miss}).pop()
+            defs = [n for n in iter_own_nodes(f.node) if isinstance(n, ast.Assign) and len(n.targets) == 1 and ast.unparse(n.targets[0]) == ev]
+            if len(defs) == 1 and isinstance(defs[0].value, ast.ListComp) and len(defs[0].value.generators) == 1:
+                lc = defs[0].value
+                gen = lc.generators[0]
+                v = ast.unparse(gen.target)
+                require_ok = (ast.unparse(lc.elt) == v and ast.unparse(gen.iter) == st + ".REQUIRE_PARTS" and len(gen.ifs) == 1
+                              and " ".join(ast.unparse(gen.ifs[0]).split()) == "%s in %s" % (v, miss))
+                if not require_ok:
+                    detail.append("required-and-missing list is `%s`" % " ".join(ast.unparse(lc).split()))
+    chk.ob(rule, "_check_strict_parsing: STRICT => any missing part fails; REQUIRE_PARTS => exactly the required missing parts fail", strict_ok and require_ok,
+           "; ".join(detail), key={"function": FILTER, "construct": "filter semantics"}, file=f.file, function=f.qual, line=f.node.lineno)
 
 
 # ---------------------------------------------------------------------------
@@ -288,3 +309,68 @@ def _context(f, node):
         if isinstance(par, ast.IfExp):
             continue
     return None
+
+
+
+def _absent_facts(fn, node):
+    """names of date parts known to be NOT stated in the string when `node` runs: negative atoms `self._token_<part>` / `self.<part>`
+    (through not/or/and, `not any([..])`) of the enclosing tests"""
+    out = set()
+    for t, pol in enclosing_tests(fn, node):
+        for a, p in conjuncts(t, pol):
+            atoms = [(a, p)]
+            # not any([x, y, z])  ==  not x and not y and not z
+            if not p and isinstance(a, ast.Call) and ast.unparse(a.func) == "any" and len(a.args) == 1 and isinstance(a.args[0], (ast.List, ast.Tuple)):
+                atoms = [(e, False) for e in a.args[0].elts]
+            for e, q in atoms:
+                if q:
+                    continue
+                txt = ast.unparse(e)
+                for part in ("year", "month", "day"):
+                    if txt in ("self._token_" + part, "self." + part, "getattr(self, '_token_%s', None)" % part):
+                        out.add(part)
+    return out
+
+
+def stated_parts_rule(ctx, chk, rule):
+    """REQUIRE_PARTS / STRICT_PARSING accept a string because it states a part; the corrections that run afterwards in
+    _correct_for_time_frame (nearest weekday, past/future year, time-only day shift) move the date and must leave every stated part
+    alone: each of them is guarded by the absence of the tokens of all parts it can change.  The one sanctioned exception is the century
+    of a two-digit year."""
+    f = ctx.ix.func("dateparser.parser:_parser._correct_for_time_frame")
+    dv = f.params()[1] if len(f.params()) > 1 else "dateobj"
+    n = 0
+    for s in iter_own_nodes(f.node):
+        if not (isinstance(s, ast.Assign) and len(s.targets) == 1 and isinstance(s.targets[0], ast.Name) and s.targets[0].id == dv):
+            continue
+        v = s.value
+        changed = None
+        what = None
+        if isinstance(v, ast.BinOp) and isinstance(v.op, (ast.Add, ast.Sub)) and ast.unparse(v.left) == dv:
+            changed, what = {"year", "month", "day"}, "shifts the date by `%s`" % ast.unparse(v.right)
+        elif isinstance(v, ast.Call) and isinstance(v.func, ast.Attribute) and v.func.attr == "replace" and ast.unparse(v.func.value) == dv:
+            changed = {k.arg for k in v.keywords if k.arg in ("year", "month", "day")}
+            what = "replaces %s" % sorted(changed)
+            if not changed:
+                continue
+        else:
+            continue        # tz normalisation (localize / astimezone / restoring the saved value) does not move calendar fields
+        n += 1
+        absent = _absent_facts(f.node, s)
+        # century of a two-digit year
+        exempt = False
+        if changed == {"year"}:
+            for t, pol in enclosing_tests(f.node, s):
+                for a, p in conjuncts(t, pol):
+                    if p and "".join(ast.unparse(a).split()) == "len(self._token_year[0])==2":
+                        kw = [k.value for k in v.keywords if k.arg == "year"][0]
+                        if isinstance(kw, ast.BinOp) and isinstance(kw.right, ast.Constant) and kw.right.value == 100 and ast.unparse(kw.left) == dv + ".year":
+                            exempt = True
+        missing = sorted(changed - absent)
+        chk.ob(rule, "line %d: the correction that %s runs only when the string states none of %s" % (s.lineno, what, sorted(changed)),
+               exempt or not missing,
+               "not guarded by the absence of %s: a stated %s is moved after REQUIRE_PARTS / STRICT_PARSING accepted the string for stating it, "
+               "so the required part depends on the reference time" % (missing, "/".join(missing)),
+               key={"function": f.key, "construct": "correction " + " ".join(ast.unparse(s).split())[:50]},
+               file=f.file, function=f.qual, line=s.lineno, text=" ".join(ast.unparse(s).split())[:100])
+    chk.floor(rule, n, 6, "date-moving corrections in _correct_for_time_frame")
